@@ -313,7 +313,9 @@ Lemma step_OPre nv s h d i payload s' : Inv nv s h d -> step s (OPre i payload) 
             acked s' = acked s /\ asize s' = precommitted s + 1 /\ phase_ s' = PIdle /\
             t_raw r = enc_rec H (precommitted s + 1) (palh s) (t_body r) /\
             (exists v vo vn hv, nth_error (inflight s) i = Some (v, vo, vn, hv) /\
-                                t_body r = enc_vref v vo vn hv ++ payload).
+                                t_body r = enc_vref v vo vn hv ++ payload /\
+                                v < 256 /\ vo < 2 ^ 64 /\ vn < 2 ^ 32) /\
+            vls s' = vls s /\ inflight s' = remove_nth (inflight s) i.
 Proof.
   intros I E. unfold Protocol.step in E. cbv zeta in E.
   destruct (phase_ s) as [| |] eqn:Eph; cbn [phase_idle negb] in E; try discriminate.
@@ -328,7 +330,7 @@ Proof.
             (v <? 256) && (vo <? 2 ^ 64) && (vn <? 2 ^ 32)) eqn:G; cbn [negb] in E; [|discriminate].
   apply andb_prop in G as [G G6]. apply andb_prop in G as [G G5]. apply andb_prop in G as [G G4].
   apply andb_prop in G as [G G3]. apply andb_prop in G as [G1 G2].
-  apply N.ltb_lt in G1, G2, G3.
+  apply N.ltb_lt in G1, G2, G3, G4, G5, G6.
   inv_fields I. rewrite Eph in Icph. destruct Icph as (P1 & P2 & P3).
   destruct Iaht as (IA & IAs).
   (* the tree: ResetSize is a no-op (sizes agree) or fails *)
@@ -366,7 +368,7 @@ Proof.
                 (remove_nth (inflight s) i) (a_size a2) (a_latest a2) (a_cnt a2)) = p + 1).
   { unfold precommitted at 1. cbn [committed pbuf]. rewrite app_length. cbn [length]. unfold p, precommitted. lia. }
   exists r. split; [|repeat split; auto].
-  3:{ exists v, vo, vn, hv. split; reflexivity. }
+  3:{ exists v, vo, vn, hv. repeat split; auto. }
   2:{ cbn [asize]. rewrite Sz2. unfold aht_of; cbn [a_size]. lia. }
   constructor; simp_st; rewrite ?Pn.
   - auto.
